@@ -57,12 +57,17 @@ func main() {
 			fmt.Println("CHECKER-FAILURE", err)
 			os.Exit(2)
 		}
-		b, _ := json.MarshalIndent(map[string]any{"inventory": inv, "sources": srcs, "files": files, "structs": structs}, "", " ")
+		edges, err := norm.Edges(*repo)
+		if err != nil {
+			fmt.Println("CHECKER-FAILURE", err)
+			os.Exit(2)
+		}
+		b, _ := json.MarshalIndent(map[string]any{"inventory": inv, "sources": srcs, "files": files, "structs": structs, "edges": edges}, "", " ")
 		fmt.Println(string(b))
 		return
 	}
 	if *shownorm {
-		res, err := norm.Normalise(*repo, nil, norm.Confirmed(), norm.ConfirmedSources(), norm.ConfirmedStructs())
+		res, err := norm.Normalise(*repo, nil, norm.Confirmed(), norm.ConfirmedSources(), norm.ConfirmedStructs(), norm.ConfirmedEdges())
 		if err != nil {
 			fmt.Println("CHECKER-FAILURE", err)
 			os.Exit(2)
@@ -141,7 +146,7 @@ func analyse(c *props.Check, tier, repo string, overlay map[string][]byte, seed 
 	}()
 	// bring new unexported helpers and renamed helpers back to the confirmed
 	// function inventory (identity on a tree that adds no function)
-	nres, nerr := norm.Normalise(repo, overlay, norm.Confirmed(), norm.ConfirmedSources(), norm.ConfirmedStructs())
+	nres, nerr := norm.Normalise(repo, overlay, norm.Confirmed(), norm.ConfirmedSources(), norm.ConfirmedStructs(), norm.ConfirmedEdges())
 	if nerr != nil {
 		return r, fmt.Errorf("normalisation: %v", nerr)
 	}
